@@ -356,13 +356,57 @@ def bounded(gen, check, name="", max_fail=3, budget_s=None):
 
 
 # ---------------------------------------------------------------------------
+def _coverage_start():
+    """PYVC_COVERAGE=<dir>: record which lines of /repo's pyphysim are executed natively (sys.monitoring, each line reported once)
+    and which statements are interpreted; one json file per obligation process.  Development aid (tools/coverage_report.py)."""
+    d = os.environ.get("PYVC_COVERAGE")
+    if not d:
+        return None
+    import sys
+    seen = set()
+    root = os.path.realpath(os.environ.get("PYVC_REPO", "/repo")) + os.sep + "pyphysim"
+    try:
+        mon = sys.monitoring
+        tool = mon.COVERAGE_ID
+        mon.use_tool_id(tool, "pyvc")
+
+        def on_line(code, line):
+            fn = code.co_filename
+            if fn.startswith(root):
+                seen.add((fn[len(root) - 8:], line))
+            return mon.DISABLE
+        mon.register_callback(tool, mon.events.LINE, on_line)
+        mon.set_events(tool, mon.events.LINE)
+    except Exception:
+        pass
+    return d, seen
+
+
+def _coverage_stop(state, oid):
+    if not state:
+        return
+    import json
+    d, seen = state
+    try:
+        os.makedirs(d, exist_ok=True)
+        interp_lines = sorted(interp_mod.COVERAGE) if interp_mod.COVERAGE is not None else []
+        with open(os.path.join(d, "%d.json" % os.getpid()), "w") as f:
+            json.dump({"obligation": oid, "native": sorted(seen), "interpreted": interp_lines}, f)
+    except Exception:
+        pass
+
+
 def _worker(mod, oid, conn):
     try:
         import importlib
+        cov = _coverage_start()
         importlib.import_module(mod)
         spec = [s for s in REGISTRY[mod] if s.id == oid][0]
         t0 = time.time()
-        r = spec.fn(**spec.params)
+        try:
+            r = spec.fn(**spec.params)
+        finally:
+            _coverage_stop(cov, oid)
         r.setdefault("wall_s", round(time.time() - t0, 3))
         conn.send(r)
     except BaseException as e:
